@@ -82,6 +82,28 @@ class NeverEqual:
         return 'NEVER_EQ'
 
 
+import abc as _abc
+import enum as _enum
+
+
+class VBaseAbc(H.VBase, metaclass=_abc.ABCMeta):
+    """A subclass of VBase whose metaclass is not ``type``."""
+
+
+class VIntEnum(_enum.IntEnum):
+    ONE = 1
+
+
+class _Meta(type):
+    pass
+
+
+class VStrMeta(str, metaclass=_Meta):
+    pass
+
+
+# classes whose metaclass is ABCMeta / EnumMeta / a user metaclass: they are classes for IsSubclass like any other
+XCLASSES = {'VBaseAbc': VBaseAbc, 'VIntEnum': VIntEnum, 'VStrMeta': VStrMeta, 'Sequence': __import__('collections.abc').abc.Sequence}
 NAN = float('nan')
 NEVER_EQ = NeverEqual()
 
@@ -111,6 +133,8 @@ def const(c):
 def realize(v):
     if v[0] == 'bag':
         return Bag([(k, realize(x)) for k, x in v[1]])
+    if v[0] == 'xclass':
+        return XCLASSES[v[1]]
     if v[0] == 'nan':
         return NAN
     if v[0] == 'neq':
@@ -237,7 +261,8 @@ def objects(depth):
         st.sampled_from(CONSTS),
         st.sampled_from([['i', 2], ['i', -1], ['s', 'ab'], ['tuple', [['i', 1], ['i', 2]]], ['list', []],
                          ['obj', 'VBase'], ['obj', 'VDerived'], ['obj', 'VOther'], ['class', 'int'], ['class', 'bool'],
-                         ['class', 'VDerived'], ['class', 'str'], ['func']]))
+                         ['class', 'VDerived'], ['class', 'str'], ['func'], ['xclass', 'VBaseAbc'], ['xclass', 'VIntEnum'],
+                         ['xclass', 'VStrMeta']]))
     if depth <= 0:
         return scalar
     sub = st.deferred(lambda: objects(depth - 1))
@@ -266,7 +291,7 @@ def obj_for(draw, e, depth=0):
         c = draw(st.sampled_from(e[1]))
         return {'int': ['i', 5], 'str': ['s', 'q'], 'bool': ['b', True], 'float': ['f', 2.5]}.get(c, ['obj', c])
     if k == 'sub':
-        return ['class', draw(st.sampled_from(e[1]))]
+        return draw(st.sampled_from([['xclass', n] for n in sorted(XCLASSES)] + [['class', c] for c in e[1]]))
     if k == 'guard':
         # objects on both sides of the guard: the partial operand must only ever see what it can digest
         return draw(st.sampled_from([['i', 4], ['i', 0], ['i', -1], ['s', 'zz'], ['n'], ['list', []], ['list', [['i', 0]]],
